@@ -45,7 +45,7 @@ CONFIGS = [
     ("endvalues", ["F %d" % H["endValues"], A("vi0", "v,vec", "multi"), A("vs0", "w,words", "multi"), A("s0", "-"), A("b0", "f")]),
     ("noabbr-verbose", ["F %d" % (H["noAbbr"] | H["verbose"] | H["listArgVar"] | H["usageCont"]), A("i0", "i,int"), A("s0", "str"), A("li0", "list"), A("b0", "f")]),
     ("brackets", ["F 0", "B", A("i0", "i,int"), A("b0", "f"), A("vs0", "n,names")]),
-    ("subgroup", ["F %d" % (H["helpShort"] | H["usageCont"]), A("i0", "i,int"), "SG %s 0" % hx("g,group"), A("s0", "n,name"), A("i1", "p,port"), "SE", A("b0", "f")]),
+    ("subgroup", ["F %d" % (H["helpShort"] | H["usageCont"] | H["helpArg"] | H["helpArgFull"]), A("i0", "i,int"), "SG %s 0" % hx("g,group"), A("s0", "n,name"), A("i1", "p,port"), "SE", A("b0", "f")]),
     ("command", ["F 0", A("s0", "c,cmd", "vm=cmd"), A("i0", "i,int"), A("b0", "f")]),
     ("special-dest", ["F 0", A("tu0", "t,tuple"), A("bs0", "b,bits"), A("mp0", "m,map"), A("ca0", "a,arr"), A("ar0", "r,array"), A("lc0", "l,level"), A("oi0", "o,opt"),
                       A("vb0", "vbool"), A("db0", "dynbits"), A("pq0", "prio"), A("mm0", "mmap"), A("bb0", "bigbits")]),
@@ -63,14 +63,16 @@ CONFIGS = [
 
 VALID = {
     "plain": [["-f", "-i", "5", "--str", "abc", "-v", "1,2,3", "--dbl=2.5", "-x"], ["-fx", "-i5", "-sabc"]],
-    "help-cont": [["-i", "1", "--help"], ["--print-hidden", "-h"], ["--help-arg=int"], ["--help-arg-full", "i"], ["--help-short", "--help"], ["-i", "3", "-l", "a,b"]],
-    "help-exit": [["--help"], ["-h"], ["--help-arg", "s"], ["-i", "7"]],
+    "help-cont": [["-i", "1", "--help"], ["--print-hidden", "-h"], ["--help-arg=int"], ["--help-arg-full", "i"], ["--help-short", "--help"], ["-i", "3", "-l", "a,b"],
+                  ["--help-arg", "i/x"], ["--help-arg=--int/int"], ["--help-arg-full", "str/s"], ["--help-arg=l/list"], ["--help-arg", "-i/"], ["--help-arg=/i"], ["--help-arg", "i/i/i"]],
+    "help-exit": [["--help"], ["-h"], ["--help-arg", "s"], ["-i", "7"], ["--help-arg", "i/s"], ["--help-arg=str/int"]],
     "sources": [["-i", "3", "-f"], ["--str", "x", "-v", "4,5"], ["-a", "1,2", "-r", "7"], ["-a", "5"], ["-r", "9,9"], ["-t", "1,x,2.5"], ["-b", "3,15"],
                 ["--vbool", "9,10,11"]],
     "endvalues": [["-v", "1", "2", "3", "--endvalues", "pos"], ["-w", "a", "b", "-f", "free"]],
     "noabbr-verbose": [["--str", "a", "-i", "4", "--list", "1,2", "--list-arg-vars"], ["-f"]],
     "brackets": [["(", "-i", "3", ")", "-f"], ["-n", "a,b", "(", "(", ")", ")"], ["!", "-f"]],
-    "subgroup": [["-i", "1", "-g", "-n", "host", "-p", "80", "-f"], ["--group", "--name=x"], ["-h"]],
+    "subgroup": [["-i", "1", "-g", "-n", "host", "-p", "80", "-f"], ["--group", "--name=x"], ["-h"], ["--help-arg", "g/n"], ["--help-arg=group/port"], ["--help-arg", "i/n"],
+                 ["--help-arg=f/p"], ["--help-arg", "g/zz"]],
     "command": [["-i", "2", "-c", "ls", "-l", "/tmp"], ["-f", "--cmd", "a", "b"]],
     "special-dest": [["-t", "1,two,3.5", "-b", "1,3,5", "-m", "a,1;b,2", "-a", "1,2,3,4", "-r", "7,8,9", "-l", "-l", "-o", "9"],
                      ["--vbool", "1,12,30", "--dynbits", "0,9,70", "--prio", "3,1,2", "--mmap", "1,x;1,y"], ["-lll"], ["-l", "4"],
